@@ -25,6 +25,7 @@ WI_RADIX = [_vc("wi_radix", {"T": "u64", "BITS": "64"}, "wi_radix-u64"),
             _vc("wi_radix", {"T": "u32", "BITS": "32"}, "wi_radix-u32"),
             _vc("wi_radix", {"T": "u128", "BITS": "128"}, "wi_radix-u128"),
             _vc("wi_u128", None, "wi_u128")]
+WI_COMPACT = [_vc("wi_compact", {"T": t, "BITS": b}, "wi_compact-" + t) for t, b in (("u8", "8"), ("u16", "16"), ("u32", "32"), ("u64", "64"), ("u128", "128"))]
 DIV128_Q = [_vc("div128", {"FEATURES": "radix"}, "div128-radix")]
 DIV128_T = [_vc("div128", {"FEATURES": "radix"}, "div128-radix"),
             _vc("div128", {"FEATURES": "power-of-two"}, "div128-pow2"),
@@ -63,7 +64,7 @@ PROPS["C03"] = dict(
                "all 35 radices) prove quotient/remainder for all n; every radix^2 digit table entry and every step / "
                "divisor constant is a discharged row obligation; Kani proves small-width entry points on the real crates "
                "over their full domains.",
-    verus_quick=DIV128_Q + WI_RADIX + JEAIII, verus_thorough=DIV128_T + WI_RADIX + JEAIII_T,
+    verus_quick=DIV128_Q + WI_RADIX + WI_COMPACT + JEAIII, verus_thorough=DIV128_T + WI_RADIX + WI_COMPACT + JEAIII_T,
     rows_quick=["wi-digit-tables", "util-step"],
     assumptions=["core::fmt::Display prints the canonical decimal numeral (not verified here)"],
 )
@@ -182,7 +183,7 @@ PROPS["C16"] = dict(
     title="Cargo features are additive",
     level_text="The same specification (canonical numeral / reference scanner) is discharged in each feature set, hence "
                "results are equal across sets; inherits the bounds of C03/C04.",
-    verus_quick=DIV128_T,
+    verus_quick=DIV128_T + WI_COMPACT,
     assumptions=["two feature sets cannot be linked into one program; equality is by 'equal to the same spec'"],
 )
 PROPS["C18"] = dict(
